@@ -355,8 +355,12 @@ package rsm
 //@ ghost field IManagedStateMachine.gapplymu int
 //@ iface (m IManagedStateMachine) Prepare
 //@ requires held(0 + m.gapplymu) != 0
+// gSyncCalls: number of times the user state machine's Sync has been invoked
+//@ ghost var gSyncCalls int
 //@ iface (m IManagedStateMachine) Sync
 //@ requires held(0 + m.gapplymu) == 2
+//@ modifies gSyncCalls
+//@ ghostset gSyncCalls := old(gSyncCalls) + 1
 
 //@ func (s *StateMachine) prepare [C11]
 //@ noframe
@@ -374,11 +378,16 @@ package rsm
 //@ modifies held(s.mu)
 //@ iface (sn ISnapshotter) Stream
 
-//@ func (s *StateMachine) sync [C11]
+// C08: the snapshot of an on-disk state machine is a dummy that only records an index; the state
+// itself must be durable up to that index, so every successful sync() of an on-disk state machine has
+// really called the user Sync -- never skipped on the strength of bookkeeping that moves at task
+// boundaries while the snapshot index moves per entry
+//@ func (s *StateMachine) sync [C11 C08]
 //@ noframe
 //@ nobounds
 //@ requires s.sm != nil && s.sm.gapplymu == ptr(s.mu) && held(s.mu) == 0
-//@ modifies held(s.mu), s.syncedIndex
+//@ modifies held(s.mu), s.syncedIndex, gSyncCalls
+//@ ensures result == nil && s.onDiskSM ==> gSyncCalls == old(gSyncCalls) + 1
 
 //@ iface (sn ISnapshotter) Save
 //@ ensures true
@@ -528,7 +537,7 @@ package rsm
 //@ extern github.com/lni/vfs (f File) Sync
 //@ ghostset gSnapFileDirty := old(gSnapFileDirty) && result != nil
 //@ extern github.com/lni/vfs (f File) Close
-//@ func (sw *SnapshotWriter) Close [C14 C16]
+//@ func (sw *SnapshotWriter) Close [C14 C16 C08]
 //@ noframe
 //@ nobounds
 //@ modifies gSnapFileDirty, sw.closed
